@@ -735,7 +735,7 @@ fn expected_probes(prop: &str) -> Vec<&'static str> {
     match prop {
         "C01" | "C02" => v.extend_from_slice(&["history.empty", "carry.byte1", "carry.byte2", "carry.count_255_to_256", "carry.count_65535_to_65536", "fault.sink_abort.fired", "fault.refusal.constructor", "fault.refusal.second_imsic", "fault.refusal.second_log_area", "fault.refusal.out_of_range_index", "c12.slit_diagonal_write", "c12.slit_same_cell_rewrite", "tpm2.log_area_set", "fault.refusal.left_unchanged"]),
         "C03" => v.extend_from_slice(&["history.empty", "carry.count_255_to_256", "carry.count_65535_to_65536", "entry.kinds", "entry.adjacent_kind_pairs", "fault.refusal.entry_unserialisable"]),
-        "C05" => v.extend_from_slice(&["c05.handles_checked", "c05.references_checked", "c05.handle_checked_after_16_later_adds", "c05.handle_checked_after_256_later_adds", "c05.variable_size_node_between_mint_and_use", "c05.ref_pairs"]),
+        "C05" => v.extend_from_slice(&["c05.handles_checked", "c05.references_checked", "c05.handle_checked_after_16_later_adds", "c05.handle_checked_after_256_later_adds", "c05.variable_size_node_between_mint_and_use", "c05.ref_pairs", "c05.handle_beyond_65535_checked"]),
         "C11" => v.extend_from_slice(&["c11.structures_checked", "c11.independence_pairs", "c11.option_subsets", "c11.non_canonical_order", "c11.repeated_option"]),
         "C12" => v.extend_from_slice(&["c12.slit_diagonal_write", "c12.slit_same_cell_rewrite", "c12.hmat_nonsquare_write", "c12.hmat_single_row_or_column_write", "c12.hmat_same_cell_rewrite", "c12.hmat_in_table_assignments", "fault.refusal.out_of_range_index", "c12.slit_shape_cells", "c12.hmat_shape_cells"]),
         "C13" => v.extend_from_slice(&["fault.refusal.oob_write", "fault.refusal.oob_write_huge_offset", "fault.producer_abort.fired", "fault.refusal.sdt_new_short_length", "c13.empty_slice_append", "c13.op_offclass", "c13.op_adjacency"]),
